@@ -23,7 +23,7 @@ def gen_flat_case(rng):
     for c in classes:
         for p in c['params']:
             if p['cfg'] not in vals and not (p['default'] is not None and rng.random() < 0.3) and rng.random() > 0.04:
-                vals[p['cfg']] = value_for_dtype(rng, p['dtype'], rich=False, objects=False)
+                vals[p['cfg']] = None if rng.random() < 0.12 else value_for_dtype(rng, p['dtype'], rich=False, objects=False)
     concrete = [c['id'] for c in classes if not c.get('abstract')]
     real = sorted(rng.sample(concrete, rng.randrange(1, len(concrete) + 1))) if concrete else []
     return dict(classes=classes, vals=vals, real=real, by_class=rng.random() < 0.5, drop_mock=rng.random() < 0.08,
